@@ -49,10 +49,12 @@ Definition w_url_tail : list N := enc_hdr n_url 16 ++ [0;0;0;0] ++ [97; 0; 98; 9
 Lemma url_tail_refuted : refutes w_url_tail [(n_url, RSizeBig)].
 Proof. refute w_url_tail. Qed.
 
-(* senc with sample_count 0: Size() is the remembered box size, the data is not written back (20 announced, 16 written) *)
+(* senc with sample_count 0: Size() is the remembered box size and the data was not written back (20 announced, 16
+   written; findings C01-K71 / K78, C02-K1 / K2 / K4); repaired by repo commit 954ff09: the data is written back *)
 Definition w_senc_zero : list N := enc_hdr n_senc 20 ++ [0;0;0;0] ++ [0;0;0;0] ++ [1;2;3;4].
-Lemma senc_zero_refuted : refutes w_senc_zero [(n_senc, RGuard)].
-Proof. refute w_senc_zero. Qed.
+Lemma senc_zero_fixed : exists t rest enc,
+  decode w_senc_zero = Ok (t, rest) /\ raw_box false t = Ok enc /\ enc ++ rest = w_senc_zero /\ why_box t = [].
+Proof. exists (treeof w_senc_zero), (rest_of w_senc_zero), (enc_of w_senc_zero). vm_compute. repeat split. Qed.
 (* finding C01-F5 (repaired by repo commit b8f1424): senc, large-size header, sub-sample flag, one sample, no data *)
 Definition w_senc_large : list N := enc_hdr_large n_senc 24 ++ [0;0;0;2] ++ [0;0;0;1].
 Lemma senc_large_fixed : decode w_senc_large = Err.
